@@ -1,6 +1,7 @@
 #!/bin/sh
 # run every registered quick (or $1) check; print one summary line each
 cd "$(dirname "$0")/.."
+mkdir -p work
 tier=${1:-quick}; shift
 extra="$@"
 for p in $(python3 -c "import json;print(' '.join(c['property_id'] for c in json.load(open('MANIFEST.json'))['checks']))"); do
